@@ -51,7 +51,7 @@ theorem parseSelectionSet_cross (r R : Nat) (src : Str) (hrR : r ≤ R)
   have g : GI (selStart src) :=
     ⟨rfl, fun h => by simp [selStart, initState] at h, fun h => by simp [selStart, initState] at h⟩
   have hf : Fresh (selStart src) := fun _ => rfl
-  rcases xs_selectionSetEntry (fuelFor src) (selStart src) r R () () sr sR hrR (Nat.zero_le _) (Nat.zero_le _) g hf hr hR hfree
+  rcases xs_selectionSetEntry (fuelFor src) (selStart src) r R () () sr sR hrR (Nat.zero_le _) (Nat.zero_le _) g hf hr hR
     with ⟨t, e1, e2, _, th, _, _⟩ | ⟨d1, d2, d3⟩
   · subst e1 e2
     refine ⟨?_, ?_⟩
